@@ -21,6 +21,7 @@ ASSUMPTIONS = ["interplay of failover with concurrent migrations over histories 
 TRUSTED = []
 
 MUTANTS = [
+    {"name": "limiter-key-by-role-position", "file": "src/broker/store.rs", "old": "                        .entry((meta.src_chunk_index, meta.src_chunk_part))", "new": "                        .entry((meta.src_chunk_index, (meta.src_chunk_part + chunk.role_position as usize) % 2))", "expect": "C06.D8:limiter-ignores-role-position"},
     {"name": "node-index-second-wrong", "file": "src/broker/store.rs", "old": "(0, ChunkRolePosition::SecondChunkMaster) => 3,", "new": "(0, ChunkRolePosition::SecondChunkMaster) => 2,", "expect": "C06.D1:owner-index-agrees:SecondChunkMaster:part0"},
     {"name": "view-slot-index-swapped", "file": "src/broker/query.rs", "old": "ChunkRolePosition::SecondChunkMaster => (3, 2),", "new": "ChunkRolePosition::SecondChunkMaster => (2, 3),", "expect": "C06.D1:owner-index-agrees:SecondChunkMaster"},
     {"name": "peer-index-wrong", "file": "src/broker/query.rs", "old": "                        1 => 2,\n", "new": "                        1 => 3,\n", "expect": "C06.D1:peer:"},
@@ -94,6 +95,8 @@ def run(ctx):
     ctx.rule("C06.D7", "shared with C04: every store change on the failover path is published under a global epoch that was not handed out before")
     ctx.rule("C06.D6", "the promotion performed by replace_failed_proxy is kept when no replacement is available: every storage back-end persists the store whatever replace_failed_proxy returns")
     _persist_on_error(ctx)
+    ctx.rule("C06.D8", "the per-proxy view limiter (limit_migration) decides which running migrations are shown from the migration records alone: nothing in it reads a chunk's role position, so a failover cannot make a running migration disappear from the served view")
+    _limiter_ignores_failover_state(ctx)
     from ..engine import AliasCtx
     from . import C04 as _c04
     _c04.run(AliasCtx(ctx, "C06.D7", only={"C04.D1"}))
@@ -570,3 +573,31 @@ def _persist_on_error(ctx):
                   bad="the write-back of the store is %s: when no spare proxy exists the promotion of the partner's replicas is dropped with the fetched copy" % ("taken only on one branch of replace_failed_proxy's result (switch bb%s)" % bad[1] if bad else "not reached after replace_failed_proxy"))
     ctx.floor("C06.D6", "copy-based storage back-ends calling replace_failed_proxy", n, 1)
     # and the store-level function does mark / promote before it may fail: confirmed by the Err-exit analysis of C04 (err-after-write holds only because the epoch is bumped first)
+
+
+
+def _limiter_ignores_failover_state(ctx):
+    F = ctx.F
+    cands = [b for b in F.all_bodies(bins=False) if b.crate == "undermoon" and not b.is_mock() and b.kind == "AssocFn" and b.impl_adt == "broker::store::ClusterStore"
+             and any((callee_of(t) or "").endswith("HashMap::entry") for bb, t in b.calls())
+             and b.locals[0]["ty"].startswith("broker::store::ClusterStore") and "tests::" not in b.path]
+    if not ctx.floor("C06.D8", "ClusterStore view limiter (returns a ClusterStore, counts in a map)", len(cands), 1):
+        return
+    for b in cands:
+        ctx.analysed(b)
+        fam = [x for x in F.all_bodies(bins=False) if x.path == b.path or x.path.startswith(b.path + "::{closure")]
+        reads = []
+        nkeys = 0
+        for x in fam:
+            dx = DefUse(x)
+            for bb, t in x.calls():
+                if (callee_of(t) or "").endswith("HashMap::entry") and len(t["args"]) > 1:
+                    nkeys += 1
+                    if any(n == "role_position" for a, n in dx.slice_operand(t["args"][1], deep=True).fields):
+                        reads.append((x, bb))
+            for blk in x.blocks:
+                if blk.term["k"] == "switch" and any(n == "role_position" for a, n in dx.slice_operand(blk.term["discr"], deep=True).fields):
+                    reads.append((x, blk.id))
+        ctx.floor("C06.D8", "throttle keys in the limiter", nkeys, 1)
+        ctx.check(not reads, "C06.D8", "limiter-ignores-role-position:%s" % b.path.rsplit("::", 1)[-1], site(reads[0][0], reads[0][1]) if reads else site(b), ok="neither the throttle key nor any decision of the limiter depends on a role position",
+                  bad="the throttle key / a decision of the view limiter depends on ChunkStore.role_position: after a failover both parts of a chunk map to the same value, a running migration is then counted as over the limit, its range is shown as stable at the source and the importing range disappears from the destination")
